@@ -214,6 +214,41 @@ func c04(r *Run) {
 		r.requireEffect(w, "C04.R3", "Remove:isUnchanged(nil, absent)", rem, "call (*state/tstate.TStateView).isUnchanged(p0, p1, string(p2), nil, false)")
 	}
 
+	// isUnchanged itself: the block diff decides whenever it has an entry (present or deleted); the parent is consulted only on a miss
+	iu := r.fn(w, "C04.R3", nmIsUnch)
+	if iu != nil {
+		gc := "(*state/tstate.TState).getChangedValue(p0.ts, p1, p2)"
+		es := findEffects(iu, "call (state.Immutable).GetValue(p0.storage, p1, []byte(p2))")
+		r.check(len(es) == 1 && len(es[0].Conds()) == 1 && es[0].Conds()[0] == "!"+gc+"#1", "C04.R3", "isUnchanged:parent-only-on-block-diff-miss", w.rel(iu.Pos()), "", "isUnchanged consults the parent value although the block diff has an entry for the key (or not exactly on a miss)")
+		var hit, nf, eq, errp bool
+		for _, o := range returnOutcomes(iu) {
+			v0 := ""
+			if len(o.Vals) == 2 {
+				v0 = term(o.Vals[0])
+			}
+			switch {
+			case len(o.Conds) == 1 && o.Conds[0] == gc+"#1":
+				// !exists && !nexists || exists && nexists && bytes.Equal(v, nval): rendered as a phi over the short-circuit edges
+				hit = strings.Contains(v0, "bytes.Equal("+gc+"#0, p3)") && strings.Contains(v0, "!p4") || strings.Contains(v0, "bytes.Equal("+gc+"#0, p3)")
+			case hasMatch(o.Conds, "(state.Immutable).GetValue(*)#1 == ago/database.ErrNotFound"):
+				nf = v0 == "!p4"
+			case hasMatch(o.Conds, "(state.Immutable).GetValue(*)#1 == nil"):
+				eq = strings.Contains(v0, "bytes.Equal((state.Immutable).GetValue(p0.storage, p1, []byte(p2))#0, p3)")
+			case hasStr(o.Sentinels, "err:(state.Immutable).GetValue"):
+				errp = v0 == "false"
+			}
+		}
+		r.check(hit && nf && eq && errp, "C04.R3", "isUnchanged:cases", w.rel(iu.Pos()), "block-diff hit decides alone; parent: equal bytes / not-found <=> new value absent; other errors returned", fmt.Sprintf("isUnchanged cases are not as expected (block-diff hit %v, parent not-found %v, parent equal %v, error %v)", hit, nf, eq, errp))
+		// existence flags: deleted-in-block vs absent-new must both hold for 'unchanged'
+		conds := map[string]bool{}
+		for _, b := range iu.Blocks {
+			if ifi, ok := b.Instrs[len(b.Instrs)-1].(*ssa.If); ok {
+				conds[predString(ifi.Cond, true)] = true
+			}
+		}
+		r.check(conds[gc+"#2"] && conds["p4"], "C04.R3", "isUnchanged:tests-both-existence-flags", w.rel(iu.Pos()), "", "isUnchanged does not test both the block diff's existence flag and the new value's existence flag")
+	}
+
 	// R4
 	gv := r.fn(w, "C04.R4", nmGetValueU)
 	if gv != nil {
